@@ -907,6 +907,12 @@ spifconf_parse_line(FILE * fp, spif_charptr_t buff)
                   libast_print_error("Parsing file %s, line %lu:  Unable to locate %%included config file %s (%s), continuing\n", file_peek_path(),
                               file_peek_line(), path, strerror(errno));
                   FREE(path);
+              } else if (fstate_idx == (unsigned char) -1) {
+                  /* The file stack index cannot count any higher (runaway or recursive inclusion). */
+                  libast_print_error("Parsing file %s, line %lu:  %%include nested too deeply, ignoring %s\n", file_peek_path(),
+                              file_peek_line(), path);
+                  fclose(fp);
+                  FREE(path);
               } else {
                   file_push(fp, path, NULL, 1, FILE_PATH_ALLOCATED);
               }
